@@ -36,10 +36,15 @@ func (e *Engine) load(s *State, p Ptr, t types.Type) Value {
 	for cnt > 0 && p.Off+(cnt-1)*p.Stride+n > len(o.Cells) {
 		cnt--
 	}
+	lo := 0
+	if iv := interval(p.Sym); iv.ok && iv.hi < uint64(cnt) {
+		cnt = int(iv.hi) + 1
+		lo = int(iv.lo)
+	}
 	out := make([]Value, n)
 	for k := 0; k < n; k++ {
 		var acc Value
-		for i := cnt - 1; i >= 0; i-- {
+		for i := cnt - 1; i >= lo; i-- {
 			c := o.Cells[p.Off+i*p.Stride+k]
 			if acc == nil {
 				acc = c
@@ -90,9 +95,14 @@ func (e *Engine) store(s *State, p Ptr, t types.Type, v Value) {
 	for cnt > 0 && p.Off+(cnt-1)*p.Stride+n > len(o.Cells) {
 		cnt--
 	}
+	lo := 0
+	if iv := interval(p.Sym); iv.ok && iv.hi < uint64(cnt) {
+		cnt = int(iv.hi) + 1
+		lo = int(iv.lo)
+	}
 	// check mergeability first
 	for k := 0; k < n; k++ {
-		for i := 0; i < cnt; i++ {
+		for i := lo; i < cnt; i++ {
 			c := o.Cells[p.Off+i*p.Stride+k]
 			if _, ok := mergeValue(TTrue, vals[k], c); !ok {
 				cv := e.concretize(s, p.Sym, "symbolic index store into pointer cells")
@@ -103,7 +113,7 @@ func (e *Engine) store(s *State, p Ptr, t types.Type, v Value) {
 	}
 	o = s.wobj(p.Obj)
 	for k := 0; k < n; k++ {
-		for i := 0; i < cnt; i++ {
+		for i := lo; i < cnt; i++ {
 			idx := p.Off + i*p.Stride + k
 			m, _ := mergeValue(Eq(p.Sym, i64(int64(i))), vals[k], o.Cells[idx])
 			o.Cells[idx] = m
